@@ -23,6 +23,22 @@ def merge_fns(P):
     return out
 
 
+def _deep_field_reads(P, f, expr, adt_path):
+    """fields of `adt_path` read by `expr` or by any workspace function it (transitively) calls, closures included"""
+    out = set()
+    todo, seen = [expr], set()
+    while todo:
+        e = todo.pop()
+        for y in subnodes(e):
+            if y.get("k") == "Field" and norm(y.get("adt", "")) == adt_path:
+                out.add(y["field"])
+            cn = call_name(y) if y.get("k") in ("Call", "MethodCall") else None
+            if cn and cn in P.fns and cn not in seen:
+                seen.add(cn)
+                todo.append(P.fns[cn].body)
+    return out
+
+
 def r11a(P, R):
     f = P.fn(MOD + "::resolve_schema_extensions")
     for enum, n in (("type_system::TypeSystemDefinitionOrExtension", 5), ("type_system::TypeDefinition", 6),
@@ -91,6 +107,22 @@ def r11b(P, R):
         if not lits:
             continue
         lit = lits[0]
+        # 2b. no shortcut exit: every path builds the merged literal, unless the shortcut's guard inspects every content component
+        e_content = [x for x in e_adt.fields() if x not in NOT_MERGED]
+        for i, (n, _) in enumerate(f.nodes()):
+            if n.get("k") != "Ret":
+                continue
+            guards = [c for c in enclosing_contexts(f, i) if c[0] in ("if-then", "if-else", "arm", "let-else")]
+            read = set()
+            for c in guards:
+                g = c[1]["cond"] if c[0].startswith("if") else (c[1].get("init") if c[0] == "let-else" else c[1]["scrut"])
+                read |= _deep_field_reads(P, f, g, ext)
+            missing = [x for x in e_content if x not in read]
+            if missing:
+                R.violated("R11-b", tag + ":shortcut", "%s returns early without merging under a condition that does not look at the "
+                           "extensions' %s: those components are dropped whenever the shortcut is taken" % (f.path, missing), loc=f.loc())
+            else:
+                R.undecided("R11-b", tag + ":shortcut", "%s has an early return whose guard reads every content component; its exactness is not decided" % f.path, loc=f.loc())
         # 3. every content field of the extension is read
         reads = field_reads(f)
         e_fields = [x for x in e_adt.fields() if x not in NOT_MERGED]
@@ -168,6 +200,36 @@ def r11d(P, R):
                     v = [p for p in subnodes(l["pat"]) if p.get("k") == "TupleStruct" and norm(p.get("ctor_of", "")).endswith("Option::Some")]
                     if v and has_field(pv.atoms(l["init"]), item, "original"):
                         ok = True
+        # ... and always then: the guard is exactly that test (no further conjunct that could let a second original through
+        # to the store below)
+        exact = None
+        for c in ctx:
+            if c[0] == "if-then":
+                cond = c[1]["cond"]
+                while cond.get("k") in ("DropTemps", "Paren"):
+                    cond = cond["e"]
+                if cond.get("k") == "LetExpr":
+                    exact = has_field(pv.atoms(cond["init"]), item, "original")
+                elif cond.get("k") == "MethodCall" and cond.get("method") == "is_some":
+                    exact = has_field(pv.atoms(cond["recv"]), item, "original")
+                elif cond.get("k") == "Binary" and cond.get("op") in ("&&", "And"):
+                    exact = False
+                break
+        if exact:
+            # every exit of the guarded block is the error
+            for c in ctx:
+                if c[0] == "if-then":
+                    rets = [y for y in subnodes(c[1]["then"]) if y.get("k") == "Ret"]
+                    oks = [y for y in subnodes(c[1]["then"]) if (call_name(y) or "").endswith("Result::Ok")]
+                    if oks or len(rets) != 1:
+                        exact = False
+                    break
+        if exact is None:
+            R.undecided("R11-d", "set_original:dup-always", "the duplicate guard of set_original is not a recognised exact presence test", loc=so.loc())
+        else:
+            R.check("R11-d", "set_original:dup-always", exact, "every second original is rejected (the guard is exactly `original is present`)",
+                    "set_original rejects a second definition only under an extra condition: otherwise the store below silently replaces "
+                    "the first definition (its content is lost, no DuplicateOriginal)", loc=so.loc())
         R.check("R11-d", "set_original:dup-only", ok, "DuplicateOriginal only when an original is already present",
                 "set_original fails on a path not guarded by `Some(_) = item.original`", loc=so.loc())
     # the store `item.original = Some(original)`
